@@ -2,6 +2,7 @@ import I18nVerif.Theorems.C20
 import I18nVerif.Proofs.Merge
 import I18nVerif.Proofs.Index
 import I18nVerif.Spec.BkiPath
+import I18nVerif.Spec.Uses
 /-!
 C20 through `makeBuilderKeys` / `mergeLocale` / `checkLocalesInner`: the signature recorded at every
 leaf of the builder-keys tree (any depth) is exactly the union, over all locales, of the occurrences
@@ -661,5 +662,543 @@ theorem checkLocalesInner_uses {suppress : Bool} {fuel : Nat} {inherits : List (
       cases iol with
       | lit t => simp [IOL.keysMut] at hq
       | interpol K => exact ⟨K, leafAt_mem bkiF p K d hpF, q, hq, hu⟩
+
+/-! ### which key paths are leaves of the builder keys: those where the default locale has a plain value -/
+
+def RecMakeShape (recMake : MakeRec) : Prop :=
+  ∀ path sub strs sub' bki strs', recMake path sub strs = .ok (sub', bki, strs') →
+    ∀ p, (leafAt bki p).isSome = leafValAt sub.keys p
+
+theorem makeKeys_shape (recMake : MakeRec) (hrec : RecMakeShape recMake) (dflt : Str) (path : KeyPath) :
+    ∀ (l accK : List (Str × PV)) (accB : BKI) (strs : List Str) ks b s,
+      makeKeys recMake dflt path l accK accB strs = .ok (ks, b, s) →
+      ∃ newB, b = accB ++ newB ∧ ∀ k,
+        (AMap.get? k l = none → AMap.get? k newB = none) ∧
+        (∀ v, AMap.get? k l = some v → ∃ lv cur, AMap.get? k newB = some lv ∧ Reduce.reduce v = .ok cur ∧
+          ∀ p, (leafLV lv p).isSome = leafOpt (curAt cur p)) := by
+  intro l
+  induction l with
+  | nil =>
+    intro accK accB strs ks b s h
+    simp only [makeKeys, Res.ok.injEq, Prod.mk.injEq] at h
+    obtain ⟨rfl, rfl, rfl⟩ := h
+    exact ⟨[], by simp, by simp [AMap.get?]⟩
+  | cons e l ih =>
+    obtain ⟨k0, v0⟩ := e
+    intro accK accB strs ks b s h
+    have tail : ∀ (cur : PV) (lv0 : LV) accK1 s1, Reduce.reduce v0 = .ok cur →
+        (∀ p, (leafLV lv0 p).isSome = leafOpt (curAt cur p)) →
+        makeKeys recMake dflt path l accK1 (accB ++ [(k0, lv0)]) s1 = .ok (ks, b, s) →
+        ∃ newB, b = accB ++ newB ∧ ∀ k,
+          (AMap.get? k ((k0, v0) :: l) = none → AMap.get? k newB = none) ∧
+          (∀ v, AMap.get? k ((k0, v0) :: l) = some v → ∃ lv cur, AMap.get? k newB = some lv ∧
+            Reduce.reduce v = .ok cur ∧ ∀ p, (leafLV lv p).isSome = leafOpt (curAt cur p)) := by
+      intro cur lv0 accK1 s1 hred hshape hmk
+      obtain ⟨newB, hb, hall⟩ := ih _ _ _ _ _ _ hmk
+      refine ⟨(k0, lv0) :: newB, by simp [hb], ?_⟩
+      intro k
+      rw [AMap.get?_cons, AMap.get?_cons]
+      by_cases hk : k0 = k
+      · subst hk
+        simp only [if_true]
+        refine ⟨by simp, ?_⟩
+        intro v hv
+        simp only [Option.some.injEq] at hv
+        subst hv
+        exact ⟨lv0, cur, rfl, hred, hshape⟩
+      · simp only [hk, if_false]
+        exact hall k
+    simp only [makeKeys] at h
+    split at h
+    · simp at h
+    · simp at h
+    · rename_i v1 hred
+      split at h
+      · rename_i sub hsh
+        have hv1 : v1 = .subkeys (some sub) := by
+          cases v1 <;> simp [makeKeys.shapeOf'] at hsh
+          subst hsh; rfl
+        subst hv1
+        split at h
+        · simp at h
+        · simp at h
+        · rename_i sub' bki strs' hrm
+          refine tail _ _ _ _ hred ?_ h
+          intro p
+          simp only [leafLV]
+          cases p with
+          | nil => rw [leafAt_nil]; rfl
+          | cons k rest => exact hrec _ _ _ _ _ _ hrm _
+      · simp at h
+      · simp at h
+      · rename_i hsh
+        split at h
+        · simp at h
+        · simp at h
+        · rename_i iol0 hgk
+          refine tail _ _ _ _ hred ?_ h
+          intro p
+          cases p with
+          | nil => cases v1 <;> simp [makeKeys.shapeOf'] at hsh <;> rfl
+          | cons k rest => cases v1 <;> simp [makeKeys.shapeOf'] at hsh <;> rfl
+
+theorem makeBuilderKeys_leafShape (dflt : Str) : ∀ fuel, RecMakeShape (makeBuilderKeys dflt fuel) := by
+  intro fuel
+  induction fuel with
+  | zero =>
+    intro path sub strs sub' bki strs' h
+    simp [makeBuilderKeys] at h
+  | succ fuel ih =>
+    intro path loc strs loc' bki strs' h p
+    simp only [makeBuilderKeys] at h
+    split at h
+    · rename_i keys' b s hk
+      simp only [Res.ok.injEq, Prod.mk.injEq] at h
+      obtain ⟨-, hbb, -⟩ := h
+      obtain ⟨newB, hb, hall⟩ := makeKeys_shape _ ih dflt path _ _ _ _ _ _ _ hk
+      simp only [List.nil_append] at hb
+      rw [← hbb, hb]
+      cases p with
+      | nil => rw [leafAt_nil]; rfl
+      | cons k rest =>
+        unfold leafValAt
+        rw [leafAt_cons, valueAt_cons]
+        obtain ⟨h1, h2⟩ := hall k
+        cases hg : AMap.get? k loc.keys with
+        | none => rw [h1 hg]; rfl
+        | some v =>
+          obtain ⟨lv, cur, a1, a2, a3⟩ := h2 v hg
+          rw [a1]
+          simp only [a2]
+          exact a3 rest
+    · simp at h
+    · simp at h
+
+/-- the leaf key paths of the final builder keys are exactly the key paths at which the default
+    locale has a plain value -/
+theorem checkLocalesInner_leaf_paths {suppress : Bool} {fuel : Nat} {inherits : List (Str × Str)} {ns : Option Str}
+    {dl : Loc} {others : List Loc} {ws : List Warning} {locales : List Loc} {bkiF : BKI} {ws' : List Warning}
+    (h : checkLocalesInner suppress fuel inherits ns (dl :: others) ws = .ok (locales, bkiF, ws')) (p : List Str) :
+    (leafAt bkiF p).isSome = leafValAt dl.keys p := by
+  obtain ⟨dl', bki0, strs, dl'', bki1, hmk, hgo, rfl⟩ := checkLocalesInner_parts h
+  rw [propagate_leafAt, ← go_leaf_paths _ _ _ _ _ _ _ _ _ _ _ _ hgo p]
+  exact makeBuilderKeys_leafShape dl.top fuel _ _ _ _ _ _ hmk p
+
+/-! ### `reduce` keeps the occurrences (even as lists, in order) -/
+
+open Reduce in
+theorem evsL_pushLit (l : Lit) (acc : List PV) : evsL (pushLit l acc) = evsL acc := by
+  unfold pushLit
+  split
+  · rename_i last h
+    have h' := (dropLast_append_of_getLast? h).symm
+    conv => rhs; rw [h']
+    simp [evsL_append, evsL, evs]
+  · simp [evsL_append, evsL, evs]
+
+open Reduce in
+theorem evs_wrapBloc (l : List PV) : evs (wrapBloc l) = evsL l := by
+  unfold wrapBloc
+  split
+  · simp [PV.empty, evs, evsL]
+  · simp [evsL]
+  · simp [evs]
+
+open Reduce in
+mutual
+theorem reduce_evs : ∀ (v v' : PV), reduce v = .ok v' → evs v' = evs v
+  | .lit l, v', h => by simp [reduce] at h; subst h; rfl
+  | .var k f, v', h => by simp [reduce] at h; subst h; rfl
+  | .dflt, v', h => by simp [reduce] at h; subst h; rfl
+  | .fk (.set inner), v', h => by
+    simp only [reduce] at h
+    simp only [evs]
+    exact reduce_evs inner v' h
+  | .fk (.notSet _ _), v', h => by simp [reduce] at h
+  | .ranges ck t bs, v', h => by
+    simp only [reduce] at h
+    split at h <;> try (simp at h; done)
+    rename_i bs' hb
+    simp at h; subst h
+    simp only [evs, reduceBranches_evs bs bs' hb]
+  | .comp k inner, v', h => by
+    simp only [reduce] at h
+    split at h <;> try (simp at h; done)
+    rename_i i hi
+    simp at h; subst h
+    simp only [evs, reduce_evs inner i hi]
+  | .subkeys (some (.mk n t keys s c)), v', h => by
+    simp only [reduce] at h
+    split at h <;> try (simp at h; done)
+    simp at h; subst h
+    simp only [evs]
+  | .subkeys none, v', h => by simp [reduce] at h
+  | .bloc items, v', h => by
+    simp only [reduce] at h
+    split at h <;> try (simp at h; done)
+    rename_i acc hacc
+    simp at h; subst h
+    rw [evs_wrapBloc, reduceIntoL_evs items [] acc hacc]
+    simp [evs, evsL]
+  | .plurals r ck other forms, v', h => by
+    simp only [reduce] at h
+    split at h <;> try (simp at h; done)
+    rename_i fs o hfs ho
+    simp at h; subst h
+    simp only [evs, reduce_evs other o ho, reduceForms_evs forms fs hfs]
+
+theorem reduceInto_evs : ∀ (v : PV) (acc acc' : List PV), reduceInto v acc = .ok acc' → evsL acc' = evsL acc ++ evs v
+  | .dflt, acc, acc', h => by simp [reduceInto] at h; subst h; simp [evs]
+  | .subkeys _, acc, acc', h => by simp [reduceInto] at h; subst h; simp [evs]
+  | .ranges ck t bs, acc, acc', h => by
+    simp only [reduceInto] at h
+    split at h <;> try (simp at h; done)
+    rename_i bs' hb
+    simp at h; subst h
+    simp [evsL_append, evsL, evs, reduceBranches_evs bs bs' hb]
+  | .plurals r ck other forms, acc, acc', h => by
+    simp only [reduceInto] at h
+    split at h <;> try (simp at h; done)
+    rename_i fs o hfs ho
+    simp at h; subst h
+    simp [evsL_append, evsL, evs, reduce_evs other o ho, reduceForms_evs forms fs hfs]
+  | .fk (.set inner), acc, acc', h => by
+    simp only [reduceInto] at h
+    simp only [evs]
+    exact reduceInto_evs inner acc acc' h
+  | .fk (.notSet _ _), acc, acc', h => by simp [reduceInto] at h
+  | .lit l, acc, acc', h => by
+    simp only [reduceInto] at h
+    split at h
+    · simp at h; subst h; simp [evs]
+    · simp at h; subst h
+      rw [evsL_pushLit]; simp [evs]
+  | .var k f, acc, acc', h => by
+    simp [reduceInto] at h; subst h
+    simp [evsL_append, evsL, evs]
+  | .comp k inner, acc, acc', h => by
+    simp only [reduceInto] at h
+    split at h <;> try (simp at h; done)
+    rename_i i hi
+    simp at h; subst h
+    simp [evsL_append, evsL, evs, reduce_evs inner i hi]
+  | .bloc items, acc, acc', h => by
+    simp only [reduceInto] at h
+    simp only [evs]
+    exact reduceIntoL_evs items acc acc' h
+
+theorem reduceIntoL_evs : ∀ (xs acc acc' : List PV), reduceIntoL xs acc = .ok acc' → evsL acc' = evsL acc ++ evsL xs
+  | [], acc, acc', h => by simp [reduceIntoL] at h; subst h; simp [evsL]
+  | x :: xs, acc, acc', h => by
+    simp only [reduceIntoL] at h
+    split at h <;> try (simp at h; done)
+    rename_i a hx
+    rw [reduceIntoL_evs xs a acc' h, reduceInto_evs x acc a hx]
+    simp [evsL]
+
+theorem reduceBranches_evs : ∀ (bs bs' : List (Range × PV)), reduceBranches bs = .ok bs' → evsB bs' = evsB bs
+  | [], bs', h => by simp [reduceBranches] at h; subst h; rfl
+  | (r, v) :: rest, bs', h => by
+    simp only [reduceBranches] at h
+    split at h <;> try (simp at h; done)
+    rename_i v' rest' hv hr
+    simp at h; subst h
+    simp only [evsB, reduce_evs v v' hv, reduceBranches_evs rest rest' hr]
+
+theorem reduceForms_evs : ∀ (fs fs' : List (Form × PV)), reduceForms fs = .ok fs' → evsF fs' = evsF fs
+  | [], fs', h => by simp [reduceForms] at h; subst h; rfl
+  | (g, v) :: rest, fs', h => by
+    simp only [reduceForms] at h
+    split at h <;> try (simp at h; done)
+    rename_i v' rest' hv hr
+    simp at h; subst h
+    simp only [evsF, reduce_evs v v' hv, reduceForms_evs rest rest' hr]
+end
+
+/-- `reduce` keeps the occurrence lists (variables with formatter, components, counts) -/
+theorem reduce_occ (v v' : PV) (h : Reduce.reduce v = .ok v') :
+    occVars v' = occVars v ∧ occComps v' = occComps v ∧ occCounts v' = occCounts v := by
+  obtain ⟨a1, a2, a3⟩ := occ_evs v
+  obtain ⟨b1, b2, b3⟩ := occ_evs v'
+  rw [a1, a2, a3, b1, b2, b3, reduce_evs v v' h]
+  exact ⟨rfl, rfl, rfl⟩
+
+theorem reduce_uses (v v' : PV) (h : Reduce.reduce v = .ok v') (o : Opt) : ValueUses v' o ↔ ValueUses v o := by
+  obtain ⟨a1, _, a3⟩ := reduce_occ v v' h
+  unfold ValueUses
+  rw [a1, a3]
+
+/-! ### the structural reading of `ValueUses` -/
+
+theorem exists_or {α} {p q : α → Prop} : (∃ x, p x ∨ q x) ↔ (∃ x, p x) ∨ (∃ x, q x) :=
+  ⟨fun ⟨x, h⟩ => h.elim (fun h => Or.inl ⟨x, h⟩) (fun h => Or.inr ⟨x, h⟩),
+   fun h => h.elim (fun ⟨x, h⟩ => ⟨x, Or.inl h⟩) (fun ⟨x, h⟩ => ⟨x, Or.inr h⟩)⟩
+
+mutual
+theorem hasPlurals_iff : ∀ v : PV, (∃ n, (n, CountTy.plural) ∈ occCounts v) ↔ hasPlurals v = true
+  | .plurals r ck o fs => by
+    simp only [occCounts, hasPlurals, iff_true]
+    exact ⟨ck, by simp⟩
+  | .comp k inner => by simp only [occCounts, hasPlurals]; exact hasPlurals_iff inner
+  | .bloc items => by simp only [occCounts, hasPlurals]; exact hasPluralsL_iff items
+  | .ranges ck t bs => by
+    simp only [occCounts, hasPlurals, List.mem_append, List.mem_singleton, Prod.mk.injEq, reduceCtorEq,
+      and_false, or_false]
+    exact hasPluralsB_iff bs
+  | .fk (.set inner) => by simp only [occCounts, hasPlurals]; exact hasPlurals_iff inner
+  | .fk (.notSet _ _) => by simp [occCounts, hasPlurals]
+  | .var _ _ => by simp [occCounts, hasPlurals]
+  | .lit _ => by simp [occCounts, hasPlurals]
+  | .dflt => by simp [occCounts, hasPlurals]
+  | .subkeys _ => by simp [occCounts, hasPlurals]
+theorem hasPluralsL_iff : ∀ l : List PV, (∃ n, (n, CountTy.plural) ∈ occCountsL l) ↔ hasPluralsL l = true
+  | [] => by simp [occCountsL, hasPluralsL]
+  | x :: xs => by
+    simp only [occCountsL, hasPluralsL, List.mem_append, Bool.or_eq_true, exists_or]
+    rw [hasPlurals_iff x, hasPluralsL_iff xs]
+theorem hasPluralsB_iff : ∀ l : List (Range × PV), (∃ n, (n, CountTy.plural) ∈ occCountsB l) ↔ hasPluralsB l = true
+  | [] => by simp [occCountsB, hasPluralsB]
+  | (_, x) :: xs => by
+    simp only [occCountsB, hasPluralsB, List.mem_append, Bool.or_eq_true, exists_or]
+    rw [hasPlurals_iff x, hasPluralsB_iff xs]
+end
+
+/-- `(n, f)` occurs with a formatter of the family of `o` -/
+def FmtIn (o : Opt) (l : List (Str × Fmt)) : Prop := ∃ n f, (n, f) ∈ l ∧ fmtOpt f = some o
+
+theorem FmtIn_append (o : Opt) (a b : List (Str × Fmt)) : FmtIn o (a ++ b) ↔ FmtIn o a ∨ FmtIn o b := by
+  unfold FmtIn
+  constructor
+  · rintro ⟨n, f, h, hf⟩
+    rcases List.mem_append.mp h with h | h
+    · exact Or.inl ⟨n, f, h, hf⟩
+    · exact Or.inr ⟨n, f, h, hf⟩
+  · rintro (⟨n, f, h, hf⟩ | ⟨n, f, h, hf⟩)
+    · exact ⟨n, f, List.mem_append.mpr (Or.inl h), hf⟩
+    · exact ⟨n, f, List.mem_append.mpr (Or.inr h), hf⟩
+
+theorem FmtIn_nil (o : Opt) : ¬ FmtIn o [] := by
+  rintro ⟨n, f, h, _⟩; simp at h
+
+mutual
+theorem hasFmt_iff (o : Opt) : ∀ v : PV, FmtIn o (occVars v) ↔ hasFmt o v = true
+  | .var k f => by
+    simp only [occVars, hasFmt, beq_iff_eq, FmtIn, List.mem_singleton, Prod.mk.injEq]
+    constructor
+    · rintro ⟨n, g, ⟨rfl, rfl⟩, h⟩; exact h
+    · intro h; exact ⟨k, f, ⟨rfl, rfl⟩, h⟩
+  | .comp k inner => by simp only [occVars, hasFmt]; exact hasFmt_iff o inner
+  | .bloc items => by simp only [occVars, hasFmt]; exact hasFmtL_iff o items
+  | .ranges ck t bs => by simp only [occVars, hasFmt]; exact hasFmtB_iff o bs
+  | .plurals r ck other fs => by
+    simp only [occVars, hasFmt, Bool.or_eq_true, FmtIn_append]
+    rw [hasFmtF_iff o fs, hasFmt_iff o other]
+  | .fk (.set inner) => by simp only [occVars, hasFmt]; exact hasFmt_iff o inner
+  | .fk (.notSet _ _) => by simp [occVars, hasFmt, FmtIn_nil]
+  | .lit _ => by simp [occVars, hasFmt, FmtIn_nil]
+  | .dflt => by simp [occVars, hasFmt, FmtIn_nil]
+  | .subkeys _ => by simp [occVars, hasFmt, FmtIn_nil]
+theorem hasFmtL_iff (o : Opt) : ∀ l : List PV, FmtIn o (occVarsL l) ↔ hasFmtL o l = true
+  | [] => by simp [occVarsL, hasFmtL, FmtIn_nil]
+  | x :: xs => by
+    simp only [occVarsL, hasFmtL, Bool.or_eq_true, FmtIn_append]
+    rw [hasFmt_iff o x, hasFmtL_iff o xs]
+theorem hasFmtB_iff (o : Opt) : ∀ l : List (Range × PV), FmtIn o (occVarsB l) ↔ hasFmtB o l = true
+  | [] => by simp [occVarsB, hasFmtB, FmtIn_nil]
+  | (_, x) :: xs => by
+    simp only [occVarsB, hasFmtB, Bool.or_eq_true, FmtIn_append]
+    rw [hasFmt_iff o x, hasFmtB_iff o xs]
+theorem hasFmtF_iff (o : Opt) : ∀ l : List (Form × PV), FmtIn o (occVarsF l) ↔ hasFmtF o l = true
+  | [] => by simp [occVarsF, hasFmtF, FmtIn_nil]
+  | (_, x) :: xs => by
+    simp only [occVarsF, hasFmtF, Bool.or_eq_true, FmtIn_append]
+    rw [hasFmt_iff o x, hasFmtF_iff o xs]
+end
+
+/-- `ValueUses` is decided by the structural check `usesB` -/
+theorem usesB_iff (v : PV) (o : Opt) : ValueUses v o ↔ usesB v o = true := by
+  unfold ValueUses usesB
+  rw [hasPlurals_iff v]
+  have := hasFmt_iff o v
+  unfold FmtIn at this
+  rw [this]
+  simp [Bool.or_eq_true, Bool.and_eq_true]
+
+/-! ### every stage of the pipeline keeps the locales' names and order -/
+
+section names
+open I18nVerif.Pipeline
+def NamesOK (L : List Str) (nss : List NS) : Prop := ∀ ns ∈ nss, ns.locales.map Loc.name = L
+
+theorem Decode_locale_name (name : Str) (j : J) (loc : Loc) (h : Decode.locale name j = .ok loc) : loc.name = name := by
+  unfold Decode.locale at h
+  cases j with
+  | obj l =>
+    simp only at h
+    rw [Decode.value] at h
+    split at h
+    · rename_i l' heq
+      simp only [Bool.false_eq_true, if_false] at heq
+      split at heq
+      · simp only [Res.ok.injEq, PV.subkeys.injEq, Option.some.injEq] at heq h
+        rw [← h, ← heq]; rfl
+      · simp at heq
+      · simp at heq
+    · simp at h
+    · simp at h
+    · simp at h
+  | _ => simp at h
+
+theorem mergePlurals_name (orc : Oracle) (locale : Str) (fuel : Nat) (path : KeyPath) (l l' : Loc) (w : List Warning)
+    (h : Plurals.mergePlurals orc locale fuel path l = .ok (l', w)) : l'.name = l.name := by
+  cases fuel with
+  | zero => simp [Plurals.mergePlurals] at h
+  | succ fuel =>
+    obtain ⟨n, t, keys, s, c⟩ := l
+    rw [Plurals.mergePlurals] at h
+    split at h
+    · simp at h
+    · simp at h
+    · split at h
+      · simp only [Res.ok.injEq, Prod.mk.injEq] at h
+        rw [← h.1]; rfl
+      · simp at h
+      · simp at h
+
+
+theorem decodeNs_names (inp : Input) (ns : Option Str) : ∀ (ls : List Str) (locs : List Loc),
+    decodeNs inp ns ls = .ok locs → locs.map Loc.name = ls
+  | [], locs, h => by simp [decodeNs] at h; subst h; rfl
+  | l :: ls, locs, h => by
+    simp only [decodeNs] at h
+    split at h
+    · simp at h
+    · split at h
+      · simp at h
+      · simp at h
+      · rename_i loc hl
+        split at h
+        · rename_i locs' hr
+          simp only [Res.ok.injEq] at h
+          subst h
+          simp [Decode_locale_name _ _ _ hl, decodeNs_names inp ns ls locs' hr]
+        · simp at h
+        · simp at h
+
+theorem decodeAll_names (inp : Input) : ∀ (keys : List (Option Str)) (nss : List NS),
+    decodeAll inp keys = .ok nss → NamesOK inp.cfg.locales nss
+  | [], nss, h => by simp [decodeAll] at h; subst h; intro ns hn; simp at hn
+  | k :: rest, nss, h => by
+    simp only [decodeAll] at h
+    split at h
+    · simp at h
+    · simp at h
+    · rename_i locs hl
+      split at h
+      · rename_i nss' hr
+        simp only [Res.ok.injEq] at h
+        subst h
+        intro ns hn
+        rcases List.mem_cons.mp hn with rfl | hn
+        · exact decodeNs_names inp k _ _ hl
+        · exact decodeAll_names inp rest nss' hr ns hn
+      · simp at h
+      · simp at h
+
+theorem mergePluralsNs_names (orc : Oracle) (ns : Option Str) : ∀ (ls : List Loc) (ws : List Warning) ls' ws',
+    mergePluralsNs orc ns ls ws = .ok (ls', ws') → ls'.map Loc.name = ls.map Loc.name
+  | [], ws, ls', ws', h => by simp [mergePluralsNs] at h; rw [h.1]
+  | l :: ls, ws, ls', ws', h => by
+    simp only [mergePluralsNs] at h
+    split at h
+    · simp at h
+    · simp at h
+    · rename_i l' w hl
+      split at h
+      · rename_i ls1 ws1 hr
+        simp only [Res.ok.injEq, Prod.mk.injEq] at h
+        rw [← h.1]
+        simp [mergePlurals_name _ _ _ _ _ _ _ hl, mergePluralsNs_names orc ns ls _ _ _ hr]
+      · simp at h
+      · simp at h
+
+theorem mergePluralsAll_names (orc : Oracle) (L : List Str) : ∀ (nss : List NS) (ws : List Warning) nss' ws',
+    mergePluralsAll orc nss ws = .ok (nss', ws') → NamesOK L nss → NamesOK L nss'
+  | [], ws, nss', ws', h, _ => by
+    simp [mergePluralsAll] at h; rw [h.1]; intro ns hn; simp at hn
+  | n :: rest, ws, nss', ws', h, hok => by
+    simp only [mergePluralsAll] at h
+    split at h
+    · simp at h
+    · simp at h
+    · rename_i locs ws1 hl
+      split at h
+      · rename_i nss1 ws2 hr
+        simp only [Res.ok.injEq, Prod.mk.injEq] at h
+        rw [← h.1]
+        intro ns hn
+        rcases List.mem_cons.mp hn with rfl | hn
+        · simp only
+          rw [mergePluralsNs_names _ _ _ _ _ _ hl]
+          exact hok n (by simp)
+        · exact mergePluralsAll_names orc L rest ws1 nss1 ws2 hr (fun x hx => hok x (by simp [hx])) ns hn
+      · simp at h
+      · simp at h
+
+theorem setValueAt_names (L : List Str) (w : World) (top : Str) (p : KeyPath) (v : PV)
+    (h : NamesOK L w.nss) : NamesOK L (w.setValueAt top p v).nss := by
+  intro ns hn
+  simp only [World.setValueAt, List.mem_map] at hn
+  obtain ⟨ns0, h0, rfl⟩ := hn
+  have := h ns0 h0
+  split
+  · simp only [List.map_map]
+    rw [← this]
+    apply List.map_congr_left
+    intro l _
+    simp only [Function.comp]
+    split
+    · cases l; rfl
+    · rfl
+  · exact this
+
+theorem resolveAt_names (L : List Str) (orc : Oracle) (dflt : Str) (fuel : Nat) (locale : Str) (p : KeyPath)
+    (w w' : World) (b : Bool) (h : Foreign.resolveAt orc dflt fuel locale p w = .ok (w', b))
+    (hok : NamesOK L w.nss) : NamesOK L w'.nss := by
+  unfold Foreign.resolveAt at h
+  split at h
+  · simp at h
+  · simp at h
+  · simp only [Res.ok.injEq, Prod.mk.injEq] at h; rw [← h.1]; exact hok
+  · split at h
+    · simp at h
+    · simp at h
+    · simp only [Res.ok.injEq, Prod.mk.injEq] at h
+      rw [← h.1]; exact setValueAt_names L w _ _ _ hok
+
+theorem resolveAll_names (L : List Str) (orc : Oracle) (dflt : Str) (fuel : Nat) :
+    ∀ (paths : List (Str × KeyPath)) (w w' : World), Foreign.resolveAll orc dflt fuel paths w = .ok w' →
+      NamesOK L w.nss → NamesOK L w'.nss
+  | [], w, w', h, hok => by simp [Foreign.resolveAll] at h; rw [← h]; exact hok
+  | (locale, p) :: rest, w, w', h, hok => by
+    simp only [Foreign.resolveAll] at h
+    split at h
+    · simp at h
+    · simp at h
+    · rename_i w1 f1 h1
+      have ok1 := resolveAt_names L _ _ _ _ _ _ _ _ h1 hok
+      split at h
+      · simp at h
+      · simp at h
+      · rename_i w2 f2 h2
+        have ok2 : NamesOK L w2.nss := by
+          split at h2
+          · simp only [Res.ok.injEq, Prod.mk.injEq] at h2; rw [← h2.1]; exact ok1
+          · exact resolveAt_names L _ _ _ _ _ _ _ _ h2 ok1
+        split at h
+        · exact resolveAll_names L orc dflt fuel rest w2 w' h ok2
+        · simp at h
+
+end names
 
 end I18nVerif.Datakey
